@@ -100,6 +100,13 @@ def run(cx):
     ack_frame_applies_both(cx, "C12.l")
     from props.C15 import group_width
     group_width(cx, "C12.m")
+    # a frame forgotten too early makes its genuine acknowledgement an ack for an unknown frame: the fragment is resent
+    # although it was acknowledged
+    from props.shared import forget_shape
+    forget_shape(cx, "C12.n")
+    # a resync offered while fragments are still unsent lets the receiver skip a Reliable packet that is then never sent
+    from props.C02 import inst_resync_guard
+    inst_resync_guard(cx, "C12.o")
 
 
 def drop_guard(cx, iid):
